@@ -122,7 +122,7 @@ Fixpoint backtrack (r : req) (t : tree) (pref : engine) {struct t} : result (tre
       | Some r1 =>
           do ud <- backtrack r1 t' pref;
           let '(up, done) := ud in
-          do res <- (if tree_eqb up t' && uop_eqb (c_second c) cur then Ok t else finish_apply (c_second c) up);
+          do res <- (if tree_eqb up t' && (negb done || uop_eqb (c_second c) cur) then Ok t else finish_apply (c_second c) up);
           Ok (res, done && c_done c)
       end
   | Bin _ _ _ => Ok (t, false)
